@@ -5,6 +5,9 @@
   arguments, the current pool and the recorded outputs: targeted definition changes; the definition used is recorded
   as event ``reload_def``); it is written over the run directory's ``flow.cylc`` and the REAL ``reload_workflow`` command is
   validated and put on the scheduler's command queue, exactly as the network layer does;
+* a new op kind ``x_remove_partial``: the real ``remove_tasks`` command on a pooled waiting task with partly satisfied
+  prerequisites (chosen when the command is issued), so that a later respawn has prerequisites whose outputs are
+  recorded in the DB but not satisfied in the live task;
 * ``TaskPool.reload`` is wrapped: immediately before the call the pool (in ``get_tasks()`` order), the old and
   new task name lists, the prerequisite keys each pooled instance gets from the new definition and the
   ``task_outputs`` rows (through the very ``select_task_outputs`` call that ``check_task_output`` makes, in the
@@ -181,6 +184,21 @@ def install(driver):
             driver.ev("reload_def", rkind=kwargs.get("kind"), scn2=newdef)
             Path(schd.workflow_run_dir, "flow.cylc").write_text(flow)
             return await o_qc(schd, "reload_workflow", {})
+        if name == "x_remove_partial":
+            # the real `cylc remove` on a pooled waiting task whose prerequisites are partly satisfied: when another
+            # parent completes later the task is respawned with the earlier (recorded) outputs NOT satisfied, i.e. the
+            # live prerequisite state and the task_outputs table legitimately disagree
+            cands = []
+            for t in schd.pool.get_tasks():
+                vals = [bool(v) for pre in t.state.prerequisites for _k, v in pre.items()]
+                if t.state.status == "waiting" and any(vals) and not all(vals):
+                    cands.append(t)
+            if not cands:
+                driver.ev("op_remove_partial", id=None)
+                return True
+            t = sorted(cands, key=lambda x: x.identity)[int(kwargs.get("pick", 0)) % len(cands)]
+            driver.ev("op_remove_partial", id=driver.tid(t))
+            return await o_qc(schd, "remove_tasks", {"tasks": [t.identity], "flow": ["all"]})
         return await o_qc(schd, name, kwargs)
     driver.queue_command = queue_command
     driver.EXTRA_PATCHES.append(patch_reload)
